@@ -210,8 +210,8 @@ func fsDerived(v ssa.Value, d int, seen map[ssa.Value]bool) string {
 	switch x := v.(type) {
 	case *ssa.Parameter:
 		// the path parameter of a filepath.Walk callback or of the conversion helper
-		if x.Name() == "path" || x.Name() == "relPath" {
-			return "parameter " + x.Name()
+		if n := prov.CanonParam(x.Parent(), x.Name()); n == "path" || n == "relPath" {
+			return "parameter " + n
 		}
 	case *ssa.FreeVar:
 		return ""
